@@ -103,3 +103,123 @@ Proof.
     + apply (SM _ (DIDP ++ m ++ [58]) i p); [unfold D; rewrite <- !app_assoc; reflexivity|rewrite !app_length; cbn [length DIDP]; lia|rewrite !app_length; cbn [length DIDP]; lia].
     + apply (SM _ D p []); [rewrite app_nil_r; reflexivity|lia|rewrite LDp; lia].
 Qed.
+
+(* ---- every setter maps the canonical value of some components to the canonical value of the updated components ---- *)
+Lemma splice_eq (d a b c v : list N) x y : d = a ++ b ++ c -> x = length a -> y = (length a + length b)%nat -> splice d x y v = Ok (a ++ v ++ c).
+Proof. intros -> Hx Hy. apply splice_app; assumption. Qed.
+Ltac lens := rewrite ?app_length; cbn [length DIDP optpre' olen']; rewrite ?app_length; cbn [length]; try lia.
+Ltac core_eq := apply f_equal5; try reflexivity; try (lens; fail); try (apply f_equal; lens).
+Ltac canon_eq := unfold tp_canon; apply f_equal; apply f_equal2; [rewrite <- ?app_assoc; cbn [app optpre']; rewrite <- ?app_assoc; reflexivity | core_eq].
+
+Definition DL (m i : list N) : nat := (5 + length m + length i)%nat.
+Lemma canon_data_len m i p q f : length (t_data (tp_canon m i p q f)) = (DL m i + length p + olen' q + olen' f)%nat.
+Proof. unfold tp_canon, DL. cbn [t_data]. destruct q, f; lens. Qed.
+
+Ltac deq := unfold DIDP; rewrite <- ?app_assoc, ?app_nil_r; cbn [app optpre']; rewrite <- ?app_assoc; reflexivity.
+Ltac canon_eq2 := unfold tp_canon; apply f_equal; apply f_equal2; [deq | core_eq].
+Notation DD m i := (DIDP ++ m ++ [58] ++ i).
+Lemma DD_len m i : length (DD m i) = (5 + length m + length i)%nat.
+Proof. lens. Qed.
+
+Lemma set_path_canon m i p q f v : tp_set_path (tp_canon m i p q f) v = Ok (tp_canon m i v q f).
+Proof.
+  unfold tp_set_path. cbn [t_core tp_canon t_data o_method o_mid o_path o_query o_frag].
+  pose proof (DD_len m i) as LD.
+  destruct q as [q|]; destruct f as [f|]; cbn [optpre' olen'].
+  - rewrite (splice_eq _ (DD m i) p ((63 :: q) ++ 35 :: f) v) by (first [deq | lia]). cbn [obind shift_opt].
+    rewrite !shift_ge by lia. cbn [obind]. canon_eq2.
+  - rewrite (splice_eq _ (DD m i) p (63 :: q) v) by (first [deq | lia]). cbn [obind shift_opt].
+    rewrite !shift_ge by lia. cbn [obind]. canon_eq2.
+  - rewrite (splice_eq _ (DD m i) p (35 :: f) v) by (first [deq | lia]). cbn [obind shift_opt].
+    rewrite !shift_ge by lia. cbn [obind]. canon_eq2.
+  - rewrite (splice_eq _ (DD m i) p [] v) by (first [deq | rewrite ?app_nil_r; lens]). cbn [obind shift_opt]. canon_eq2.
+Qed.
+Lemma firstn_app_exact {A} (a b : list A) n : n = length a -> firstn n (a ++ b) = a.
+Proof. intros ->. rewrite firstn_app, firstn_all, Nat.sub_diag. cbn [firstn]. apply app_nil_r. Qed.
+Lemma set_query_canon m i p q f v : tp_set_query (tp_canon m i p q f) v = Ok (tp_canon m i p v f).
+Proof.
+  unfold tp_set_query. cbn [t_core tp_canon t_data o_method o_mid o_path o_query o_frag].
+  pose proof (DD_len m i) as LD.
+  destruct q as [q|]; destruct f as [f|]; destruct v as [v|]; cbn [optpre' olen'].
+  - (* Some, Some, Some *)
+    rewrite (splice_eq _ (DD m i ++ p ++ [63]) q (35 :: f) v) by (first [deq | lens]). cbn [obind]. canon_eq2.
+  - (* Some, Some, None *)
+    rewrite (splice_eq _ (DD m i ++ p) (63 :: q) (35 :: f) []) by (first [deq | lens]). cbn [obind]. canon_eq2.
+  - (* Some, None, Some *)
+    rewrite (splice_eq _ (DD m i ++ p ++ [63]) q [] v) by (first [deq | lens]). cbn [obind]. canon_eq2.
+  - (* Some, None, None *)
+    rewrite leb_true by lens.
+    replace ([100; 105; 100; 58] ++ m ++ [58] ++ i ++ p ++ (63 :: q) ++ []) with ((DD m i ++ p) ++ (63 :: q)) by deq.
+    rewrite firstn_app_exact by lens. canon_eq2.
+  - (* None, Some, Some *)
+    rewrite (splice_eq _ (DD m i ++ p) [] (35 :: f) (63 :: v)) by (first [deq | lens]). cbn [obind]. canon_eq2.
+  - reflexivity.
+  - (* None, None, Some *) canon_eq2.
+  - reflexivity.
+Qed.
+Lemma set_fragment_canon m i p q f v : tp_set_fragment (tp_canon m i p q f) v = Ok (tp_canon m i p q v).
+Proof.
+  unfold tp_set_fragment. cbn [t_core tp_canon t_data o_method o_mid o_path o_query o_frag].
+  pose proof (DD_len m i) as LD.
+  destruct f as [f|].
+  - rewrite leb_true by (destruct q; lens).
+    replace ([100; 105; 100; 58] ++ m ++ [58] ++ i ++ p ++ optpre' 63 q ++ optpre' 35 (Some f)) with ((DD m i ++ p ++ optpre' 63 q) ++ (35 :: f)) by deq.
+    rewrite firstn_app_exact by (destruct q; lens). cbn [obind].
+    destruct v as [v|]; [|destruct q; canon_eq2].
+    destruct q; unfold tp_canon; apply f_equal; apply f_equal2; try deq; apply f_equal5; try reflexivity; apply f_equal; lens.
+  - cbn [obind optpre']. destruct v as [v|]; [|destruct q; canon_eq2].
+    destruct q; unfold tp_canon; apply f_equal; apply f_equal2; try deq; apply f_equal5; try reflexivity; apply f_equal; lens.
+Qed.
+Lemma shift_opt_ge old new o : (forall x, o = Some x -> (old <= x)%nat) -> shift_opt old new o = Ok (match o with Some x => Some (x - old + new)%nat | None => None end).
+Proof. destruct o as [x|]; intros H; cbn [shift_opt]; [rewrite (shift_ge old new x (H x eq_refl)); reflexivity|reflexivity]. Qed.
+Lemma set_method_canon m i p q f v : tp_set_method (tp_canon m i p q f) v = Ok (tp_canon v i p q f).
+Proof.
+  unfold tp_set_method. cbn [t_core tp_canon t_data o_method o_mid o_path o_query o_frag].
+  rewrite (splice_eq _ DIDP m ([58] ++ i ++ p ++ optpre' 63 q ++ optpre' 35 f) v) by (first [deq | lens]). cbn [obind].
+  rewrite !shift_ge by lia. cbn [obind].
+  rewrite !shift_opt_ge by (intros x Hx; destruct q, f; inversion Hx; lia). cbn [obind].
+  destruct q, f; canon_eq2.
+Qed.
+Lemma set_method_id_canon m i p q f v : tp_set_method_id (tp_canon m i p q f) v = Ok (tp_canon m v p q f).
+Proof.
+  unfold tp_set_method_id. cbn [t_core tp_canon t_data o_method o_mid o_path o_query o_frag].
+  rewrite (splice_eq _ (DIDP ++ m ++ [58]) i (p ++ optpre' 63 q ++ optpre' 35 f) v) by (first [deq | lens]). cbn [obind].
+  rewrite !shift_ge by lia. cbn [obind].
+  rewrite !shift_opt_ge by (intros x Hx; destruct q, f; inversion Hx; lia). cbn [obind].
+  destruct q, f; canon_eq2.
+Qed.
+Lemma placeholder_canon : tp_placeholder = tp_canon [97] [97] [] None None.
+Proof. reflexivity. Qed.
+
+(* the accessors of a canonical value answer with its components *)
+Lemma slice_eq (d a b c : list N) x y : d = a ++ b ++ c -> x = length a -> y = (length a + length b)%nat -> slice d x y = Ok b.
+Proof. intros -> Hx Hy. apply slice_app_mid; assumption. Qed.
+Theorem canon_accessors m i p q f :
+  let t := tp_canon m i p q f in
+  tp_method (t_data t) (t_core t) = Ok m /\ tp_method_id (t_data t) (t_core t) = Ok i
+  /\ tp_path (t_data t) (t_core t) = Ok p /\ tp_query (t_data t) (t_core t) = Ok q /\ tp_fragment (t_data t) (t_core t) = Ok f.
+Proof.
+  cbv zeta. unfold tp_canon. cbn [t_data t_core]. unfold tp_method, tp_method_id, tp_path, tp_query, tp_fragment, slice_from. cbn [o_method o_mid o_path o_query o_frag].
+  pose proof (DD_len m i) as LD.
+  split; [apply (slice_eq _ DIDP m ([58] ++ i ++ p ++ optpre' 63 q ++ optpre' 35 f)); first [deq | lens]|].
+  split; [apply (slice_eq _ (DIDP ++ m ++ [58]) i (p ++ optpre' 63 q ++ optpre' 35 f)); first [deq | lens]|].
+  destruct q as [q|]; destruct f as [f|]; cbn [optpre' olen'].
+  - split; [apply (slice_eq _ (DD m i) p ((63 :: q) ++ 35 :: f)); first [deq | lens]|].
+    split; [rewrite (slice_eq _ (DD m i ++ p ++ [63]) q (35 :: f)); [reflexivity|deq|lens|lens]|].
+    rewrite (slice_eq _ (DD m i ++ p ++ (63 :: q) ++ [35]) f []); [reflexivity|deq|lens|lens].
+  - split; [apply (slice_eq _ (DD m i) p (63 :: q)); first [deq | lens]|].
+    split; [rewrite (slice_eq _ (DD m i ++ p ++ [63]) q []); [reflexivity|deq|lens|lens]|reflexivity].
+  - split; [apply (slice_eq _ (DD m i) p (35 :: f)); first [deq | lens]|].
+    split; [reflexivity|]. rewrite (slice_eq _ (DD m i ++ p ++ [35]) f []); [reflexivity|deq|lens|lens].
+  - split; [apply (slice_eq _ (DD m i) p []); first [deq | lens]|]. split; reflexivity.
+Qed.
+
+(* so: the value CoreDID::parse assembles, the base join assembles, and the value the third-party join computes from that base
+   (transform_references: set_path, set_query, set_method, set_method_id, set_fragment) are canonical - every accessor answers with
+   exactly the component that was put there, whatever the components are *)
+Theorem assemble_did_canon m i : tp_assemble_did m i = Ok (tp_canon m i [] None None).
+Proof. unfold tp_assemble_did. rewrite placeholder_canon, set_method_canon. cbn [obind]. apply set_method_id_canon. Qed.
+Theorem transform_canon m i p q f path' query' F :
+  tp_transform (tp_canon m i p q f) m i path' query' F = Ok (tp_canon m i path' query' F).
+Proof. unfold tp_transform. rewrite set_path_canon. cbn [obind]. rewrite set_query_canon. cbn [obind]. rewrite set_method_canon. cbn [obind].
+  rewrite set_method_id_canon. cbn [obind]. apply set_fragment_canon. Qed.
